@@ -346,6 +346,16 @@ func main() {
 	imp := "From V Require Import U64 Extracted Ledger LedgerCheck."
 	w1 := &sim.CaseWriter{OutDir: *outDir, Name: "c04tx", Imports: imp, CaseType: "tx_case", MFun: "tx_mismatches", VFun: fmt.Sprintf("tx_violations_for %d", *prop), PerShard: 25}
 	wFail = &sim.CaseWriter{OutDir: *outDir, Name: "c04fail", Imports: imp, CaseType: "fail_case", MFun: "fail_mismatches", VFun: fmt.Sprintf("fail_violations_for %d", *prop), PerShard: 40}
+	if *prop == 5 {
+		imp5 := "From V Require Import U64 Extracted Ledger LedgerCheck Auth."
+		wa := &sim.CaseWriter{OutDir: *outDir, Name: "c05tx", Imports: imp5, CaseType: "auth_case", MFun: "auth_mismatches", VFun: "auth_violations", PerShard: 25}
+		wb := &sim.CaseWriter{OutDir: *outDir, Name: "c05blk", Imports: imp5, CaseType: "ablk_case", MFun: "ablk_mismatches", VFun: "ablk_violations", PerShard: 100}
+		authMode(r.Fork(), *nStates, *perState, wa, wb)
+		wa.Close(st)
+		wb.Close(st)
+		fmt.Printf("authorization: %d cases; variants %v outcomes %v skipped %v\n", st.Cases, st.TxCases, st.TxOutcome, st.Skipped)
+		return
+	}
 	wSlash = &sim.CaseWriter{OutDir: *outDir, Name: "c04slash", Imports: imp, CaseType: "sl_case", MFun: "sl_mismatches", VFun: fmt.Sprintf("sl_violations_for %d", *prop), PerShard: 25}
 	txMode(r.Fork(), *nStates, *perState, w1, *outDir)
 	w1.Close(st)
